@@ -598,6 +598,10 @@ func (e *Exec) evalInvNamed(fr *frame, spec *LoopSpec, li *loopInfo, k string, s
 					found = fr.vals[phi]
 				}
 			}
+			if found == nil && len(p.Name()) >= 2 && p.Name()[0] == 'p' && p.Name()[1] >= '0' && p.Name()[1] <= '9' {
+				// a blank parameter of the target (named pN only in the harness): unused by construction
+				found = e.freshVal(st, "blank", p.Type())
+			}
 			if found == nil {
 				unsupported("invariant of %s loop %d: no variable %q", con.Display(), spec.N, p.Name())
 			}
@@ -645,6 +649,17 @@ func (e *Exec) findLocal(fr *frame, name string, li *loopInfo) *ssa.Alloc {
 		for _, in := range b.Instrs {
 			if a, ok := in.(*ssa.Alloc); ok && a.Heap {
 				consider(a)
+			}
+		}
+	}
+	// compiler-made loop variables (rangeindex, ...) have no position and one Alloc per loop: take the
+	// one the loop header itself stores to
+	if li != nil && best != nil && !best.Pos().IsValid() {
+		for _, in := range li.header.Instrs {
+			if stn, ok := in.(*ssa.Store); ok {
+				if a, ok := stn.Addr.(*ssa.Alloc); ok && a.Comment == name {
+					return a
+				}
 			}
 		}
 	}
